@@ -464,7 +464,7 @@ let () =
   let verbose = Array.length Sys.argv > 2 && Sys.argv.(2) = "-v" in
   let nets : (string, net * sx) Hashtbl.t = Hashtbl.create 64 in
   let pnets : (string, pNet) Hashtbl.t = Hashtbl.create 64 in
-  let checks = ref 0 and bad = ref 0 and wffail = ref 0 and wfskip = ref 0 and modelskip = ref 0 and indom = ref 0 and outdom = ref 0 and loads_ok = ref 0 and loads_err = ref 0 and builds = ref 0 in
+  let checks = ref 0 and bad = ref 0 and wffail = ref 0 and wfskip = ref 0 and modelskip = ref 0 and indom = ref 0 and outdom = ref 0 and loads_ok = ref 0 and loads_err = ref 0 and builds = ref 0 and nrec = ref 0 and prec = ref 0 and lrec = ref 0 and brec = ref 0 and endseen = ref 0 in
   let causes : (string, int) Hashtbl.t = Hashtbl.create 16 in
   let report kind id detail =
     incr bad;
@@ -481,10 +481,12 @@ let () =
       if Unix.gettimeofday () -. t0 > budget then begin
         Printf.printf "BUDGET exhausted after %d records\n" !records; raise End_of_file end;
       (* a record cut short by a killed harness (no closing parenthesis) is not a record *)
+      if String.length line >= 3 && String.sub line 0 3 = "END" then incr endseen;
       if String.length line > 2 && line.[String.length line - 1] = ')' then begin
         let kind, id, off = split3 line in
         (try match kind with
           | "N" ->
+            incr nrec;
             let sx = parse_sx line off in
             let n = net_of sx in
             Hashtbl.reset nets;
@@ -501,6 +503,7 @@ let () =
             (* the hypotheses of load_save, evaluated on the network built through the API *)
             if in_domain n then incr indom else incr outdom
           | "B" ->
+            incr brec;
             (* the calls the flat generator made: the builder model must reach the observed network *)
             let sx = parse_sx line off in
             (match tagged "ops" sx, Hashtbl.find_opt nets id with
@@ -514,6 +517,7 @@ let () =
                 | None -> report "build-outcome" id "the builder model refuses a call sequence the implementation accepted")
              | _ -> failwith "B record without N record")
           | "P" ->
+            incr prec;
             let sp = String.index_from line off ' ' in
             let enc = String.sub line off (sp - off) in
             let sx = parse_sx line (sp + 1) in
@@ -526,6 +530,7 @@ let () =
                if not (sx_match a b) then report "save" (id ^ "/" ^ enc) (diff_str a b)
              | None -> ())
           | "L" ->
+            incr lrec;
             let sp = String.index_from line off ' ' in
             let enc = String.sub line off (sp - off) in
             let sx = parse_sx line (sp + 1) in
@@ -542,11 +547,16 @@ let () =
                let k = cause_name c in
                Hashtbl.replace causes k (1 + (try Hashtbl.find causes k with Not_found -> 0)));
             (match sx, m with
-             | L [A "ok"; g], Ok n' ->
+             | L [A "ok"; g; L (A "received" :: rc)], Ok n' ->
                let a = canon g and b = canon (sx_net (prune n')) in
-               if not (sx_match a b) then report "load" (id ^ "/" ^ enc) (diff_str a b)
+               if not (sx_match a b) then report "load" (id ^ "/" ^ enc) (diff_str a b);
+               (* the converse relation (ReceivedMessages) registered by the loader, as a set *)
+               let got = List.sort_uniq compare (List.map sx_to_string rc) in
+               let want = List.sort_uniq compare (List.map (fun ((n, k), m) -> sx_to_string (L [A "rm"; ss n; sz k; ss m])) (received_rel p)) in
+               if got <> want then
+                 report "received" (id ^ "/" ^ enc) (Printf.sprintf "ReceivedMessages relation: impl has %d pairs, model %d" (List.length got) (List.length want))
              | L [A "err"], Err _ -> ()
-             | L [A "ok"; _], Err c -> report "load-outcome" (id ^ "/" ^ enc) ("impl=ok model=Err " ^ cause_name c)
+             | L (A "ok" :: _), Err c -> report "load-outcome" (id ^ "/" ^ enc) ("impl=ok model=Err " ^ cause_name c)
              | L [A "err"], Ok _ -> report "load-outcome" (id ^ "/" ^ enc) "impl=err model=Ok"
              | _ -> failwith "bad L record");
             if verbose then Printf.printf "L %s/%s model=%s\n" id enc (match m with Ok n' -> sx_to_string (sx_net (prune n')) | Err c -> "Err " ^ cause_name c)
@@ -563,4 +573,5 @@ let () =
   Printf.printf "DOMAIN in %d out %d\n" !indom !outdom;
   Printf.printf "MODELSKIP %d\n" !modelskip;
   Printf.printf "BUILDS %d\n" !builds;
+  Printf.printf "RECORDS N %d P %d L %d B %d END %d\n" !nrec !prec !lrec !brec !endseen;
   Printf.printf "CHECKS %d MISMATCHES %d WFFAIL %d\n" !checks !bad !wffail
